@@ -8,6 +8,12 @@ if i>=0: s=s[:i]
 sec=open('/verif/tools/design_sec10.md.tmpl').read()
 asb=subprocess.check_output(['/verif/tools/asbuilt.py'],text=True)
 seed=subprocess.check_output(['/verif/tools/seedtable.py'],text=True)
+import glob,re
+files=[f for f in subprocess.check_output(['git','-C','/repo','ls-files'],text=True).split() if f.endswith('zz_contracts_verif.go')]
+nf=sum(len(re.findall(r'^//@ func ',open('/repo/'+f).read(),re.M)) for f in files)
+nh=len([l for l in subprocess.check_output(['git','-C','/repo','log','--format=%s','320adc8..HEAD'],text=True).splitlines() if l.startswith('verif:')])
+kl=sum(len(open(f).read().splitlines()) for f in glob.glob('/verif/govc/*.go'))
+sec=sec.replace('@@NFILES@@',str(len(files))).replace('@@NFUNCS@@',str(nf)).replace('@@NHOOKS@@',str(nh)).replace('@@NREPLAY@@',str(len(glob.glob('/verif/replay/*_test.go')))).replace('@@KLOC@@','%.1f'%(kl/1000))
 sec=sec.replace('@@ASBUILT@@',asb).replace('@@SEEDTABLE@@',seed)
 open('/verif/DESIGN.md','w').write(s.rstrip('\n')+'\n'+sec)
 PY
